@@ -5,6 +5,18 @@ Property theorems only; helper lemmas live in `KrillModel.Bgp.Lemmas`.
 The model (`Bgp/Validate.lean`, `Bgp/Analyse.lean`) follows
 `src/server/bgp/analyser.rs`; the RISwhois prefix tree of `riswhois.rs` is specified as the
 list filter `covers` and tied to it by the correspondence run only.
+
+Clause → theorem (property text of C17 in properties.jsonl)
+| clause | theorem(s) |
+|---|---|
+| valid exactly when some ROA covers with the same origin and a sufficient max length | `valid_iff`, `valid_names_first_match`, `validate_eq_rfc6811` |
+| invalid (wrong origin / wrong length / disallowed by AS0) exactly when covering ROAs exist but none matches | `invalid_iff` (three kinds), `disallowed_by_exact`, `validate_eq_rfc6811` |
+| not found exactly when no ROA covers | `notfound_iff` |
+| each announcement within the CA's resources is reported (once, in one category) | `announcement_category_exact`, `report_entries_exact` |
+| each ROA's authorised / disallowed set is exactly what validation attributes to it | `authorizes_exact`, `disallows_exact` (non-AS0, guard `as0_entry_guard`); AS0: `as0_disallows_partial` + negation `as0_disallows_not_exact` (F-C17-1, open) |
+| suggestions never propose removing a ROA that (alone) validates an observed announcement | `suggest_safe` (every single proposal, any announcements/scope); whole suggestion: negation `suggest_combined_not_safe` (F-C17-2, open) |
+| nested prefixes, max-length variations, AS0, duplicates; every held-resource and scope restriction | all theorems quantify over arbitrary lists; `covers_is_range_inclusion`, `covers_partial_order`; scope/held enter `analyse` as arbitrary predicates/lists |
+| the prefix tree of riswhois.rs | specification only (list filter); tied by the `pure` stream (`msp`, `ana`) |
 -/
 import KrillModel.Bgp.Lemmas
 namespace KM.Props.C17
@@ -248,6 +260,82 @@ theorem validate_eq_rfc6811 (roas : List Roa) (a : Ann) (hwf : AllWF roas) :
       | notFound => exact absurd hx hnf
       | _ => rfl
 
+/-- **Each announcement is in exactly one category, and it is the right one**: the state of
+its report entry is one of the five announcement states, *valid* exactly when RFC 6811 says
+valid, *not found* exactly when RFC 6811 says not found, and one of the three invalid kinds
+exactly when RFC 6811 says invalid – for every list of well-formed VRPs (host prefixes /32
+and /128, max lengths at the family limit and AS0 included: nothing is assumed about them)
+and every announcement. -/
+theorem announcement_category_exact (roas : List Roa) (a : Ann) (hwf : AllWF roas) :
+    let st := (validate roas a).toEntry.state
+    (st = .annValid ↔ Spec.rfc6811 roas a = .valid) ∧
+    (st = .annNotFound ↔ Spec.rfc6811 roas a = .notFound) ∧
+    ((st = .annInvalidLength ∨ st = .annInvalidAsn ∨ st = .annDisallowed) ↔
+      Spec.rfc6811 roas a = .invalid) ∧
+    (st = .annValid ∨ st = .annNotFound ∨ st = .annInvalidLength ∨ st = .annInvalidAsn ∨
+      st = .annDisallowed) := by
+  have h := validate_eq_rfc6811 roas a hwf
+  simp only
+  unfold Validated.toEntry
+  cases hv : (validate roas a).validity <;> rw [hv] at h <;> simp [← h, Validity.toState]
+
+/-- **The report has exactly one entry per announcement in scope and per ROA within the
+limit**: its announcement entries are the scoped announcements, its ROA entries the ROAs not
+held followed by the held ones (with multiplicity, in order before the final sort). -/
+theorem report_entries_exact (i : AnalyseInput) (s : List Ann) (entries : List Entry)
+    (hseen : i.seen = some s) (h : analyse i = some entries) :
+    entries.filterMap (·.ann?) = i.scoped ∧
+    entries.filterMap (·.roaConf?) = i.roasNotHeld ++ i.roasHeld := by
+  obtain ⟨roaEntries, hre, rfl⟩ := analyse_shape i s entries hseen h
+  have hmap := allSome_eq_some hre
+  have hs2 : roaEntries.map (·.subject) = i.roasHeld.map Sum.inl :=
+    subjects_of_map_some _ Sum.inl (fun r e he => (categorise_facts r _ _ e he).1) _ _ hmap
+  have hs1 : (i.roasNotHeld.map (fun r => ({ subject := .inl r, state := .roaNotHeld } : Entry))).map
+      (·.subject) = i.roasNotHeld.map Sum.inl := by
+    rw [List.map_map]; rfl
+  have hs3 : (i.validated.map (·.toEntry)).map (·.subject) = i.scoped.map Sum.inr := by
+    have : i.validated = i.scoped.map (validate (i.roasHeld.map (·.payload))) := rfl
+    rw [this, List.map_map, List.map_map]
+    apply List.map_congr_left
+    intro a _
+    simp only [Function.comp, toEntry_subject, validate_ann]
+  obtain ⟨a1, a2⟩ := filterMap_of_subject_inl _ _ hs1
+  obtain ⟨b1, b2⟩ := filterMap_of_subject_inl _ _ hs2
+  obtain ⟨c1, c2⟩ := filterMap_of_subject_inr _ _ hs3
+  simp only [List.filterMap_append]
+  rw [a1, a2, b1, b2, c1, c2]
+  simp
+
+/-- **Guard for F-C17-1 made explicit**: an AS0 ROA never appears with an `authorizes`
+list, its entry is one of the two AS0 kinds, and no other ROA gets those kinds; the sets of
+a non-AS0 ROA are exact (`authorizes_exact`, `disallows_exact`), the `disallows` of an AS0
+ROA is *all covered* (`as0_disallows_partial`) – that is the recorded exception. -/
+theorem as0_entry_guard (rc : RoaConf) (validated : List Validated) (all : List RoaConf) (e : Entry)
+    (h : categoriseRoa rc validated all = some e) :
+    (rc.payload.asn = 0 ↔ (e.state = .roaAs0 ∨ e.state = .roaAs0Redundant)) ∧
+    (rc.payload.asn = 0 → e.authorizes = []) := by
+  unfold categoriseRoa at h
+  simp only at h
+  split at h
+  · cases h
+  · simp only [Option.some.injEq] at h
+    by_cases h0 : (rc.payload.asn == 0) = true
+    · have hz : rc.payload.asn = 0 := by simpa using h0
+      rw [h0] at h
+      simp only [if_true] at h
+      split at h <;> subst h <;> simp [hz]
+    · have h0' : (rc.payload.asn == 0) = false := by simpa using h0
+      have hz : rc.payload.asn ≠ 0 := by simpa using h0
+      rw [h0'] at h
+      simp only [Bool.false_eq_true, if_false] at h
+      split at h
+      · subst h; simp [hz]
+      · split at h
+        · subst h; simp [hz]
+        · split at h
+          · subst h; simp [hz]
+          · split at h <;> subst h <;> simp [hz]
+
 /-- `covers` – the bit-mask test of riswhois.rs that decides which ROAs and announcements
 meet – is inclusion of address ranges, for well-formed prefixes of one family.  It is also
 what `TypedPrefix::matching_or_less_specific` (api/roa.rs) computes. -/
@@ -428,25 +516,26 @@ theorem validBy_iff_rfc6811 (roas : List Roa) (a : Ann) (hwf : AllWF roas) :
   cases (validate roas a).validity <;> simp [Validity.isValid, Validity.toState]
 
 /-- **Every single suggestion is safe.**  With announcement data loaded, for every observed
-announcement (origin not AS0) that is valid under the held ROAs:
+announcement – any set of announcements, any scope – that is valid under the held ROAs:
 removing a ROA listed as stale, as redundant or as redundant AS0 ROA leaves it valid, and so
 does replacing a ROA listed as too permissive by the ROAs proposed for it.
-(Hypotheses: prefixes well formed; the held payloads pairwise distinct – they are the keys
-of a map in a CA.) -/
+(Guards, all explicit: prefixes well formed; the held payloads pairwise distinct – they are
+the keys of a map in a CA; for the AS0 case the announcement's origin is not AS0, because
+krill lets an AS0 ROA "validate" an AS0 origin.) -/
 theorem suggest_safe (i : AnalyseInput) (s : List Ann) (entries : List Entry)
     (hseen : i.seen = some s) (h : analyse i = some entries)
     (hwf : AllWF (heldPayloads i)) (hwfa : ∀ a ∈ i.scoped, a.pfx.WF)
     (hnd : (heldPayloads i).Nodup) :
-    ∀ a ∈ i.scoped, a.asn ≠ 0 → ValidBy (heldPayloads i) a →
+    ∀ a ∈ i.scoped, ValidBy (heldPayloads i) a →
       (∀ rc ∈ (suggestOf entries).stale,
         ValidBy ((heldPayloads i).filter (fun r => r != rc.payload)) a) ∧
       (∀ rc ∈ (suggestOf entries).redundant,
         ValidBy ((heldPayloads i).filter (fun r => r != rc.payload)) a) ∧
-      (∀ rc ∈ (suggestOf entries).as0Redundant,
+      (a.asn ≠ 0 → ∀ rc ∈ (suggestOf entries).as0Redundant,
         ValidBy ((heldPayloads i).filter (fun r => r != rc.payload)) a) ∧
       (∀ rep ∈ (suggestOf entries).tooPermissive,
         ValidBy ((heldPayloads i).filter (fun r => r != rep.current.payload) ++ rep.new_) a) := by
-  intro a ha hasn ⟨r, hr, hm⟩
+  intro a ha ⟨r, hr, hm⟩
   have hval : i.validated = i.scoped.map (validate (heldPayloads i)) := rfl
   -- keeping `r` suffices whenever `r` is not the removed payload
   have keep : ∀ p : Roa, r ≠ p → ValidBy ((heldPayloads i).filter (fun x => x != p)) a := by
@@ -493,7 +582,7 @@ theorem suggest_safe (i : AnalyseInput) (s : List Ann) (entries : List Entry)
       refine ⟨hoasn.trans m1, covers_trans _ _ _ (hwf _ hom) (hwf _ hpm) hcov m2, Nat.le_trans m3 hmax⟩
     · exact keep _ heq
   · -- redundant AS0 ROA: it validates nothing with a non-zero origin
-    intro rc hrc
+    intro hasn rc hrc
     obtain ⟨e, he, hsub, hst⟩ := (mem_suggest_as0Redundant entries rc).mp hrc
     obtain ⟨_, hcat⟩ := origin e rc he hsub (by rw [hst]; simp)
     apply keep
@@ -616,6 +705,26 @@ theorem suggest_combined_not_safe :
     cases hr
 
 /-! ## Non-vacuity -/
+
+/-- Boundary instances covered by the universally quantified theorems: host prefixes /32 and
+/128, a max length at the family limit, `/0`, AS0 – krill's verdict and RFC 6811 agree. -/
+example :
+    let host4 : Prefix := ⟨.v4, 167772161, 32⟩
+    let host6 : Prefix := ⟨.v6, 1, 128⟩
+    let roas : List Roa := [⟨64496, ⟨.v4, 167772160, 31⟩, some 32⟩, ⟨0, ⟨.v6, 0, 0⟩, none⟩,
+      ⟨64497, host6, some 128⟩, ⟨64498, ⟨.v4, 0, 0⟩, some 0⟩]
+    AllWF roas ∧
+    (validate roas ⟨64496, host4⟩).validity.toState = .valid ∧ Spec.rfc6811 roas ⟨64496, host4⟩ = .valid ∧
+    (validate roas ⟨64497, host6⟩).validity.toState = .valid ∧ Spec.rfc6811 roas ⟨64497, host6⟩ = .valid ∧
+    (validate roas ⟨64496, host6⟩).validity = .invalidAsn ∧ Spec.rfc6811 roas ⟨64496, host6⟩ = .invalid ∧
+    (validate roas ⟨64498, ⟨.v4, 0, 0⟩⟩).validity.toState = .valid ∧
+    (validate roas ⟨64498, ⟨.v4, 0, 1⟩⟩).validity = .invalidLength ∧
+    (validate roas ⟨64499, ⟨.v6, 2 ^ 127, 1⟩⟩).validity = .disallowed := by
+  refine ⟨?_, by decide, by decide, by decide, by decide, by decide, by decide, by decide, by decide, by decide⟩
+  intro r hr
+  simp only [List.mem_cons, List.not_mem_nil, or_false] at hr
+  rcases hr with rfl | rfl | rfl | rfl <;> decide
+
 
 /-- A well-formed ROA list on which every verdict occurs. -/
 example : AllWF [⟨0, ⟨.v4, 167772160, 8⟩, some 8⟩, ⟨64496, ⟨.v4, 167837696, 16⟩, some 24⟩] := by
